@@ -5,6 +5,7 @@
 //! operations without any cache: the oracle is `cached result == uncached result`.
 //!
 //! Modes:  `c19 FILE`        one case per line (format below), one result line per case
+//!         `c19 SEEDS trace`   the calls of real commands on the cached handle as an op-sequence case line
 //!         `c19 SEEDS readers` the generic readers on the Repository API (see `readers_case`)
 //!         `c19 SEEDS e2e`   one seed per line: identical backup/forget/prune/check histories
 //!                           with no_cache = true / false (see `e2e_case`)
@@ -593,9 +594,136 @@ fn readers_inner(line: &str) -> anyhow::Result<String> {
     Ok(format!("ok {}", out.join(" ")))
 }
 
+// ------------------------------------------------------------------------------- trace
+// The calls the real commands make on the cached handle: the repository is opened (no_cache)
+// over  RecBackend -> CachedBackend (verif hook) -> store, so the recording wrapper sees every
+// ReadBackend / WriteBackend call that reaches the cache layer.  The calls on snapshot and
+// index files are printed as a case line of the op-sequence format (ids renumbered, data
+// empty); between two commands "anything may have happened" (a file planted per type).  The
+// extracted Model.disciplined is evaluated on it by the check.
+// Line: `seed`.  Result: `ok <case line of the commands> ## <case line ending in an explicit-id read>`.
+fn trace_case(line: &str) -> String {
+    match std::panic::catch_unwind(|| trace_inner(line)) {
+        Ok(Ok(s)) => s,
+        Ok(Err(e)) => format!("error {e:#}").replace('\n', " "),
+        Err(_) => "panic".into(),
+    }
+}
+
+fn trace_inner(line: &str) -> anyhow::Result<String> {
+    use rustic_core::{CheckOptions, LimitOption, PruneOptions};
+    use verif_harness::e2e::*;
+    let mut t = Toks::new(line);
+    let mut r = SplitMix(t.u());
+    let store = mem();
+    let (repo, key) = init_repo(store.clone(), None, &small_pack_config(12_000, 1_500), &repo_opts())?;
+    drop(repo);
+    let cdir = tempfile::tempdir()?;
+    let cache = hook::new_cache(id_from_u64(78), cdir.path().to_path_buf())?;
+    let cached = hook::cached_backend(store.clone(), &cache);
+    let rec = RecBackend::new(cached, "above-cache");
+    rec.set_plan(FaultPlan { record_reads: true, ..FaultPlan::default() });
+    let src = tempfile::tempdir()?;
+    let tp = TreeParams { max_entries: 8, max_depth: 2, max_file: 20_000, odd_names: false, symlinks: false, hardlinks: false };
+    materialize(src.path(), &gen_tree(&mut r, &tp))?;
+
+    let mut ids: BTreeMap<Id, u64> = BTreeMap::new();
+    let mut ops: Vec<String> = Vec::new();
+    let mut names: Vec<String> = Vec::new();
+    let mut flush = |ops: &mut Vec<String>, ids: &mut BTreeMap<Id, u64>, log: Vec<Op>| {
+        for o in log {
+            let tn = tnum(o.tpe);
+            if tn != 1 && tn != 3 {
+                continue; // snapshot and index files only
+            }
+            let n = ids.len() as u64 + 1;
+            let i = *ids.entry(o.id).or_insert(n);
+            match o.kind {
+                OpKind::List => ops.push(format!("4 {tn}")),
+                OpKind::ReadFull => ops.push(format!("0 {tn} {i}")),
+                OpKind::ReadPartial => ops.push(format!("1 {tn} {i} {} {} {}", o.cacheable as u8, o.offset, o.len.max(1))),
+                OpKind::Write => ops.push(format!("2 {tn} {i} {} {} 0", o.cacheable as u8, o.ok as u8)),
+                OpKind::Remove => ops.push(format!("3 {tn} {i} {}", o.cacheable as u8)),
+                _ => {}
+            }
+        }
+    };
+    let reset = |ops: &mut Vec<String>| {
+        ops.push("8 3 9999 0".into());
+        ops.push("8 1 9999 0".into());
+    };
+    let open = || open_repo(rec.clone(), None, &key, &repo_opts());
+
+    // backup, backup with parent, forget, prune, check, latest snapshot
+    for k in 0..3 {
+        std::fs::write(src.path().join("extra"), Content::Random { seed: r.next(), len: 3000 + k }.bytes())?;
+        let _ = rec.take_log();
+        let _ = backup_dir(open()?, src.path(), "src", None)?;
+        flush(&mut ops, &mut ids, rec.take_log());
+        reset(&mut ops);
+        names.push("backup".into());
+    }
+    {
+        let repo = open()?;
+        let _ = rec.take_log();
+        let mut snaps = repo.get_all_snapshots()?;
+        snaps.sort_by(|x, y| x.time.cmp(&y.time));
+        let rm: Vec<_> = snaps[..1].iter().map(|s| s.id).collect();
+        repo.delete_snapshots(&rm)?;
+        flush(&mut ops, &mut ids, rec.take_log());
+        reset(&mut ops);
+        names.push("forget".into());
+    }
+    {
+        let repo = open()?;
+        let _ = rec.take_log();
+        let mut p = PruneOptions::default();
+        p.keep_pack = rustic_core::jiff::Span::new();
+        p.keep_delete = rustic_core::jiff::Span::new();
+        p.max_unused = LimitOption::Size(bytesize::ByteSize(0));
+        p.instant_delete = true;
+        let plan = repo.prune_plan(&p)?;
+        repo.prune(&p, plan)?;
+        flush(&mut ops, &mut ids, rec.take_log());
+        reset(&mut ops);
+        names.push("prune".into());
+    }
+    {
+        let repo = open()?;
+        let _ = rec.take_log();
+        let ok = repo.check(CheckOptions::default().read_data(true))?.is_ok().is_ok();
+        anyhow::ensure!(ok, "check reports errors");
+        flush(&mut ops, &mut ids, rec.take_log());
+        reset(&mut ops);
+        names.push("check".into());
+    }
+    let latest = {
+        let repo = open()?;
+        let _ = rec.take_log();
+        let sn = repo.get_snapshot_from_str("latest", |_| true)?;
+        let _ = repo.get_snapshot_from_str(&sn.id.to_hex().as_str()[..12], |_| true)?;
+        flush(&mut ops, &mut ids, rec.take_log());
+        names.push("snapshot-by-latest-and-prefix".into());
+        sn
+    };
+    let good = format!("{} {}", ops.len(), ops.join(" "));
+    // negative control: after anything may have happened, a snapshot read by its full id
+    reset(&mut ops);
+    {
+        let repo = open()?;
+        let _ = rec.take_log();
+        let _ = repo.get_snapshots(&[latest.id.to_hex().to_string()])?;
+        flush(&mut ops, &mut ids, rec.take_log());
+    }
+    let bad = format!("{} {}", ops.len(), ops.join(" "));
+    Ok(format!("ok {} ## {good} ## {bad}", names.join(",")))
+}
+
 fn main() {
     let args: Vec<String> = std::env::args().collect();
-    if args.len() > 2 && args[2] == "readers" {
+    if args.len() > 2 && args[2] == "trace" {
+        for_each_case(|l| trace_case(l));
+    } else if args.len() > 2 && args[2] == "readers" {
         for_each_case(|l| readers_case(l));
     } else if args.len() > 2 && args[2] == "e2e" {
         for_each_case(|l| e2e_case(l));
